@@ -204,7 +204,39 @@ func packErrKind(err error) string {
 
 // unpackOne runs the real rawProto.Unpack once on the given proto/reader into a new message.
 func unpackOne(p socket.Proto) (m *M, class string) {
-	return unpackInto(p, socket.NewMessage())
+	msg := socket.NewMessage()
+	m, class = unpackInto(p, msg)
+	if class == "ok" && c05Retain {
+		c05Retained = append(c05Retained, c05Kept{msg, m.Show()})
+	}
+	return m, class
+}
+
+// A decoded message must stay what it is while LATER frames are decoded from the same connection
+// (the protocols decode through pooled buffers; a field that still points into such a buffer
+// changes under the caller's feet). Stream cases retain every message decoded into its own object
+// and look at it again when the stream is exhausted.
+type c05Kept struct {
+	msg  socket.Message
+	show string
+}
+
+var (
+	c05Retain   bool
+	c05Retained []c05Kept
+)
+
+func c05RetainStart() { c05Retain, c05Retained = true, c05Retained[:0] }
+
+func c05RetainCheck(line string, out *hx.Out, sig string) {
+	c05Retain = false
+	for i, k := range c05Retained {
+		if now := fromMessage(k.msg).Show(); now != k.show {
+			out.Violate(line, "decoded-message-stable", fmt.Sprintf("message %d of the stream read %q right after its Unpack and %q after the later frames were decoded", i, k.show, now), sig)
+			break
+		}
+	}
+	c05Retained = c05Retained[:0]
 }
 
 // unpackInto unpacks into the given message object after Reset, the way the session's read loop
@@ -313,6 +345,8 @@ func c05Run(line string, out *hx.Out) (string, bool) {
 		var shows []string
 		end := ""
 		reused := socket.NewMessage()
+		c05RetainStart()
+		defer c05RetainCheck(line, out, "c05:raw:decoded-message-aliases-read-buffer")
 		for i := 0; ; i++ {
 			var got *M
 			var class string
